@@ -27,6 +27,15 @@ def _commit_nodes(cfg):
     return [n for (n, c) in calls_with_nodes(cfg) if src(c.func) == "self.txn.commit"]
 
 
+
+def check_inbound_exit(model, rep, rule):
+    """Inbound.__exit__ rolls back whatever transaction is still open (shared with C12: an open write transaction holds the zone's single writer slot)."""
+    ex = model.func("dns.xfr.Inbound.__exit__")
+    t = " ".join(src(ex.node).split())
+    rep.check("if self.txn: self.txn.rollback()" in t and t.rstrip().endswith("return False"), rule, ex.qualname, where(ex, ex.node),
+              "__exit__ rolls back an open transaction and never swallows the exception", "__exit__ does not (roll back the open transaction and return False): a transfer that fails between the final SOA and the commit keeps "
+              "the zone's write transaction open - on a versioned zone every later writer() blocks for ever", stmt="exit-rollback")
+
 def run(model, rep, tier):
     pm = pat.canon_func(model.func(PM), ["for __rrset in message.answer[__answer_index:]:\n    __name = __rrset.name\n    __rdataset = __rrset\n    ...", "__soa = cast(dns.rdtypes.ANY.SOA.SOA, ...)"])
     cfg = CFG(pm.node, implicit_exc=False)
@@ -102,10 +111,7 @@ def run(model, rep, tier):
                         stmt=f"driver-after-commit: {stmt_key(r.ast)}")
 
     # ---------------------------------------------------------------- R-13.2
-    ex = model.func("dns.xfr.Inbound.__exit__")
-    t = " ".join(src(ex.node).split())
-    rep.check("if self.txn: self.txn.rollback()" in t and t.rstrip().endswith("return False"), "R-13.2", ex.qualname, where(ex, ex.node),
-              "__exit__ rolls back an open transaction and never swallows the exception", "__exit__ does not (roll back the open transaction and return False)", stmt="exit-rollback")
+    check_inbound_exit(model, rep, "R-13.2")
     # after commit txn is cleared so __exit__ does not roll back a committed txn / commit twice
     for cn in commits:
         clear = [n.id for n in cfg.nodes if isinstance(n.ast, ast.Assign) and src(n.ast) == "self.txn = None"]
@@ -241,7 +247,7 @@ def run(model, rep, tier):
     rep.share(model, "C09", {"R-09.3"}, "R-13.9", "Inbound stores every record through txn.add/replace -> Node._append_rdataset", only=lambda o: o.stmt in ("node-filter", "node-filter-tables", "classify"))
     rep.share(model, "C20", {"R-20.2"}, "R-13.7", "each IXFR step is applied to a writable version cloned from the newest committed version", only=lambda o: o.stmt in ("newest-base", "same-base"))
     rep.share(model, "C12", {"R-12.3"}, "R-13.7", "Inbound opens txn_manager.writer(); a stale admission event blocks every later transfer for ever")
-    rep.share(model, "C10", {"R-10.5", "R-10.9"}, "R-13.5", "IXFR deletions address an rdataset by (name, rdtype, covers); a dropped component leaves stale RRSIGs in the zone")
+    rep.share(model, "C10", {"R-10.5", "R-10.9", "R-10.15"}, "R-13.5", "IXFR deletions address an rdataset by (name, rdtype, covers); a dropped component leaves stale RRSIGs in the zone")
     rep.meta["explanation"] = (
         "Commit-last typestate on the CFG of Inbound.process_message and of every driver (with the boolean result propagated through the loop test), "
         "plus dominance rules for the guards that must precede any zone mutation. Convergence to the server's version for all streams is NOT decided.")
